@@ -112,6 +112,14 @@ def make_api(r, shape, *, add_iam=False, mixins=False, collide=False):
         lresp = api.main.message("ListWidgetsResponse")
         lresp.field("widgets", 1, main_resp.fqn, repeated=True).field("next_page_token", 2, "string")
         svc.rpc("ListWidgets", lreq.fqn, lresp.fqn)
+        if shape in ("dep", "sub"):
+            # the same with the request in the other package (plain protobuf dependency / proto-plus sub-package): the pager
+            # has to copy such a request too (plain protobuf: /repo commit 9678930)
+            freq = (api.dep if shape == "dep" else api.sub).message("ListFarWidgetsRequest")
+            freq.field("parent", 1, "string").field("page_size", 2, "int32").field("page_token", 3, "string")
+            fresp = api.main.message("ListFarWidgetsResponse")
+            fresp.field("widgets", 1, main_resp.fqn, repeated=True).field("next_page_token", 2, "string")
+            svc.rpc("ListFarWidgets", freq.fqn, fresp.fqn, sigs=["parent"])
         oreq = api.main.message("BuildWidgetRequest")
         oreq.field("parent", 1, "string")
         ometa = api.main.message("BuildWidgetMetadata")
@@ -1088,7 +1096,7 @@ def plan(ctx):
             continue
         jobs.append((c["tag"], apigen.req_from_b64(c["request_b64"]), c.get("rindex", 0), c.get("service_yaml")))
     ctx.oblige("corpus: the 10 always-on witness APIs of corpus/C03 are present", len(jobs) >= 10, f"{len(jobs)} found", "build")
-    n = ctx.n(7, 90)
+    n = ctx.n(5, 90)
     i = made = 0
     while made < n and i < 4 * n:
         r = env.rng("C03-api", i)
